@@ -3,7 +3,7 @@
 # usage: tools/baseline_check.sh [repo_dir]
 REPO=${1:-/repo}
 OUT=$(mktemp /tmp/baseline.XXXXXX.xml)
-( cd "$REPO" && env -u METRIC_LEARN_VERIF /venv/bin/python -m pytest -ra -q -p no:cacheprovider --timeout=900 --continue-on-collection-errors --junitxml="$OUT" >/dev/null 2>&1 )
+( cd "$REPO" && env -u METRIC_LEARN_VERIF OMP_NUM_THREADS=2 OPENBLAS_NUM_THREADS=2 /venv/bin/python -m pytest -ra -q -p no:cacheprovider --timeout=900 --continue-on-collection-errors --junitxml="$OUT" >/dev/null 2>&1 )
 /venv/bin/python - "$OUT" <<'PY'
 import json, sys, xml.etree.ElementTree as ET
 base = set(json.load(open('/root/.vp/BASELINE.json'))['stable_pass'])
